@@ -27,6 +27,7 @@ def check(ctx):
     ps.check_escape(roots[0], position=0)
     invalidate.check_invalidation(ctx, GP)
     invalidate.check_cached_function_key(ctx)
+    invalidate.check_unconditional_recompute(ctx, f'{GP}._update_comb_fixed_mask', '_comb_fixed_mask')
     ctx.floor('A1', 12, 'persistent stores on the decode slice (feasibility mask, graph caches, imputation '
                         'caches, exclusion sets)')
     ctx.floor('A5inv', 2, 'writers of state read by cached functions')
